@@ -243,12 +243,15 @@ func C08(r *h.Run) {
 	// ---- a compressor that FAILS on some message: the response says what its body is — an
 	// error the client can read, not a body labelled with an encoding it does not have ----
 	for _, proto := range protos {
-		for _, kind := range []string{"unary", "server"} {
+		for _, kindAndWord := range []string{"unary POISON", "server POISON", "unary TOXIC", "server TOXIC"} {
+			kind, word := strings.Fields(kindAndWord)[0], strings.Fields(kindAndWord)[1]
 			cfg := envCfg{Proto: proto}
 			failing := connect.WithCompression("failz", func() connect.Decompressor { return &failzDecompressor{} }, func() connect.Compressor { return &failzCompressor{} })
 			acceptFailz := connect.WithAcceptCompression("failz", func() connect.Decompressor { return &failzDecompressor{} }, func() connect.Compressor { return &failzCompressor{} })
 			mux := http.NewServeMux()
-			msg := bytes.Repeat([]byte("POISON"), 20) // the compressor refuses payloads containing POISON
+			// the compressor refuses payloads containing POISON in Write, and fails the final flush
+			// (Close) for payloads containing TOXIC after accepting every Write
+			msg := bytes.Repeat([]byte(word), 20)
 			mux.Handle("/verif.Svc/Unary", connect.NewUnaryHandler("/verif.Svc/Unary", func(context.Context, *connect.Request[h.Raw]) (*connect.Response[h.Raw], error) {
 				return connect.NewResponse(&h.Raw{B: msg}), nil
 			}, connect.WithCodec(h.ToyCodec{}), failing))
@@ -280,8 +283,8 @@ func C08(r *h.Run) {
 				}
 			})
 			_ = cfg
-			in := map[string]any{"proto": proto, "kind": kind, "negotiated": "failz (the handler's compressor fails on this response message)", "response_bytes": len(msg)}
-			r.Eval("compressor_fails", fmt.Sprint(proto, kind))
+			in := map[string]any{"proto": proto, "kind": kind, "negotiated": "failz (the handler's compressor fails on this response message: " + map[string]string{"POISON": "Write returns an error", "TOXIC": "every Write succeeds, Close returns an error after writing half of its output"}[word] + ")", "response_bytes": len(msg)}
+			r.Eval("compressor_fails", fmt.Sprint(proto, kind, word))
 			if p != nil {
 				r.Fail(h.Failure{Key: "negotiate/panic", Family: "compressor_fails", What: fmt.Sprint("panic: ", p), Input: in})
 				continue
@@ -659,6 +662,15 @@ func (c *failzCompressor) Write(p []byte) (int, error) {
 	return c.buf.Write(p)
 }
 func (c *failzCompressor) Close() error {
+	if bytes.Contains(c.buf.Bytes(), []byte("TOXIC")) {
+		// every Write succeeded; the final flush fails half-way
+		var zb bytes.Buffer
+		zw := gzip.NewWriter(&zb)
+		_, _ = zw.Write(c.buf.Bytes())
+		_ = zw.Close()
+		_, _ = c.w.Write(zb.Bytes()[:zb.Len()/2])
+		return errors.New("failz: flush failed")
+	}
 	zw := gzip.NewWriter(c.w)
 	if _, err := zw.Write(c.buf.Bytes()); err != nil {
 		return err
